@@ -306,6 +306,7 @@ func (r *RPCExecuteProgramResponse) DecodeFrom(d *types.Decoder) {
 	r.NewMerkleRoot.DecodeFrom(d)
 	r.NewSize = d.ReadUint64()
 	types.DecodeSlice(d, &r.Proof)
+	r.Error = nil
 	if s := d.ReadString(); s != "" {
 		r.Error = errors.New(s)
 	}
